@@ -61,7 +61,7 @@ def main():
         if demo == "demo.rs" and name:
             tdir = os.path.join(wt, crate_dir, "tests")
             if crate == "lightmotif-py":
-                tdir = os.path.join(wt, crate_dir, "lightmotif", "tests")
+                tdir = os.path.join(wt, crate_dir, "tests")   # auto-discovered integration tests of the package
             os.makedirs(tdir, exist_ok=True)
             sh("cp %s %s" % (os.path.join(d, "demo.rs"), os.path.join(tdir, name + ".rs")))
             demo_cmd = "cargo test --offline -p %s --test %s 2>&1" % (crate, name)
